@@ -260,6 +260,10 @@ func routeFunc(id int, entity ...bool) restful.RouteFunction {
 		}
 		for k, v := range req.PathParameters() {
 			iv.Params[k] = v
+			// the single-value accessor is the same binding read another way
+			if got := req.PathParameter(k); got != v {
+				iv.Params["!PathParameter("+k+")"] = got
+			}
 		}
 		iv.SelPath = req.SelectedRoutePath()
 		if sr := req.SelectedRoute(); sr != nil {
